@@ -93,7 +93,8 @@ static void hook (void) {
   object_t *ob = current_object;
   int self = kind == 1 ? assign_id (ob) : id_of (ob);
   if (kind == 1 && self < 0) vx_child_exit (0);      /* a third clone: outside the population bound */
-  static const char *kn[] = { "?", "create", "init", "move_or_destruct", "verb", "heart_beat", "call_out" };
+  static const char *kn[] = { "?", "create", "init", "move_or_destruct", "verb", "heart_beat", "call_out", "id", "poke", "catch_tell" };
+  if (kind < 1 || kind > 9) return;
   hook_calls++;
   vx_count (C_HOOKS, 1);
   ob->variables[0].u.number = 0;
@@ -105,7 +106,7 @@ static void hook (void) {
   if ((kind == 2 || kind == 4) && (!command_giver || (command_giver->flags & O_DESTRUCTED)))
     fail_hist (kind == 4 ? "C08:destructed-object-given-commands" : "C08:destructed-command-giver:init", "%s() in O%d runs with this_player() = %s", kn[kind], self, command_giver ? "a destructed object" : "0");
   if (kind == 4) vx_count (C_VERBS, 1);
-  if (!choices_on || self < 0) return;
+  if (!choices_on || self < 0 || kind > 7) return;
   script v[40];
   int n = build_scripts (kind, self, v);
   int c = vx_choose (n, kn[kind]);
@@ -128,6 +129,8 @@ static void hook (void) {
 enum { FR_MOVE, FR_DEST, FR_MOD };
 typedef struct { int type, ob, ok, implicit; } frame;
 static frame FR[64]; static int nFR, nested_restrict, last_script_kind, last_hb_id = -1;
+/* move_object("<name>"): the destination is loaded inside the efun, the link is made after its create() chain has finished */
+static int pend_on, pend_x, pend_t, pend_depth, pend_frame, shapes_on, shape_args_bad;
 
 static int in_subtree (int x, int root) { for (int g = 0; x >= 0 && g < 8; x = M[x].parent, g++) if (x == root) return 1; return 0; }
 static int head_of (int x) { int h = -1; for (int i = 0; i < NOBJ; i++) if (live (i) && M[i].parent == x && (h < 0 || M[i].seq > M[h].seq)) h = i; return h; }
@@ -168,8 +171,31 @@ static void process_log (int op_failed) {
     array_t *e = log->item[i].u.arr;
     svalue_t *w = &e->item[0];
     int id = (int) num (e, 1);
-    if (str_eq (w, "create")) { vx_obs ("  create O%d", id); model_created (id); }
+    if (str_eq (w, "create")) { vx_obs ("  create O%d", id); model_created (id); if (pend_on) pend_depth++; }
     else if (str_eq (w, "create-end")) ;
+    else if (str_eq (w, "move-s-begin")) {
+      int a = (int) num (e, 2), t = (int) num (e, 3);
+      vx_obs ("  move O%d -> \"%s\" (by O%d)%s", a, obj_file[t], id, live (t) ? "" : " [not loaded: the efun loads it]");
+      push_frame (FR_MOVE, a, 0, 0);
+      pend_frame = nFR - 1; pend_on = 1; pend_x = a; pend_t = t; pend_depth = 0;
+      if (live (t)) {         /* already there: linked at once */
+        int ok = live (a) && !in_subtree (t, a);
+        if (ok) { M[a].parent = t; M[a].seq = ++seqno; vx_count (C_MOVES, 1); }
+        FR[pend_frame].ok = ok; pend_on = 0;
+      }
+    } else if (str_eq (w, "move-s-end")) {
+      int a = (int) num (e, 2);
+      while (nFR > 0 && !(FR[nFR - 1].type == FR_MOVE && FR[nFR - 1].ob == a)) nFR--;
+      if (nFR > 0) { if (!FR[nFR - 1].ok) fail_hist ("C08:illegal-move-succeeded", "move_object(\"%s\") by O%d returned normally although the mover was destructed meanwhile, the destination did not survive its create(), or it would be inside itself", obj_file[num (e, 3) ? 1 : 0], a); nFR--; }
+      pend_on = 0;
+      settle ();
+    }
+    else if (str_eq (w, "present-begin")) vx_obs ("  present(\"thing\", O%ld)", num (e, 2));
+    else if (str_eq (w, "present-end")) ;
+    else if (str_eq (w, "id")) { vx_obs ("  id() in O%d", id); if (!live (id)) fail_hist ("C08:model-desync", "id() record from O%d which the model has as not live (%d)", id, M[id].st); }
+    else if (str_eq (w, "shape-begin")) vx_obs ("  shape %ld: O%ld is pending on the stack while a later argument destructs it", num (e, 3), num (e, 2));
+    else if (str_eq (w, "shape-arg")) { if (num (e, 2)) { shape_args_bad++; fail_hist ("C08:reference-to-destructed-object-not-0", "an argument that was pending on the stack while the object was destructed arrives in the callee as an object"); } }
+    else if (str_eq (w, "shape-end")) { if (num (e, 4)) fail_hist ("C08:reference-to-destructed-object-not-0", "a local variable holding O%ld still reads as an object after the object was destructed", num (e, 2)); }
     else if (str_eq (w, "move-begin")) {
       int a = (int) num (e, 2), b = (int) num (e, 3);
       int ok = live (a) && live (b) && !in_subtree (b, a);
@@ -203,6 +229,14 @@ static void process_log (int op_failed) {
       if (!live (id)) fail_hist ("C08:model-desync", "move_or_destruct() record from O%d which the model has as not live (%d)", id, M[id].st);
       push_frame (FR_MOD, id, 1, 0);
     } else if (str_eq (w, "hook-end")) {
+      if (num (e, 2) == 1 && pend_on) {
+        if (pend_depth > 0) pend_depth--;
+        if (pend_depth == 0 && live (pend_t) && pend_frame < nFR && !FR[pend_frame].ok) {
+          /* the destination exists now: this is where the efun goes on to move_object() */
+          int ok = live (pend_x) && !in_subtree (pend_t, pend_x);
+          if (ok) { M[pend_x].parent = pend_t; M[pend_x].seq = ++seqno; vx_count (C_MOVES, 1); FR[pend_frame].ok = 1; pend_on = 0; }
+        }
+      }
       if (num (e, 2) == 3) {
         while (nFR > 0 && !(FR[nFR - 1].type == FR_MOD && FR[nFR - 1].ob == id)) nFR--;
         if (nFR > 0) nFR--;
@@ -245,7 +279,7 @@ static void process_log (int op_failed) {
       if (FR[k].type == FR_DEST && !FR[k].implicit) fail_hist ("C08:model-desync", "destruct(O%d) neither completed nor raised an error", FR[k].ob);
     }
   }
-  nFR = 0;
+  nFR = 0; pend_on = 0;
 }
 
 /* ------------------------------------------------------------------ invariant walker over the driver's own structures */
@@ -382,6 +416,12 @@ static void observe (const char *when) {
       long want = live (i) ? i : -1;
       if (f != want) fail_hist (want < 0 ? "C08:destructed-object-found-by-name" : "C08:live-object-not-found-by-name", "%s: find_object(\"%s\") gives O%ld, expected O%ld", when, nm, f, want);
     }
+    else if (i < 2) {
+      /* find_object() of a name that is not loaded finds nothing and loads nothing (the object count is checked by the walker) */
+      push_constant_string (obj_file[i]);
+      long f = lgi ("fo", 1);
+      if (f != -1) fail_hist ("C08:find_object-found-unloaded-name", "%s: find_object(\"%s\") = O%ld although nothing of that name is loaded", when, obj_file[i], f);
+    }
     /* references read as 0 */
     if (M[i].st) {
       push_number (i);
@@ -440,6 +480,7 @@ static void after_step (int failed, const char *desc, int expect_fail) {
   if (selftest == 3) for (int i = 0; i < NOBJ; i++) if (OB[i] && (OB[i]->flags & O_DESTRUCTED) && M[i].st == 2 && !lookup_object_hash (OB[i]->name)) { enter_object_hash (OB[i]); break; }
   if (nested_restrict && !failed) fail_hist ("C08:model-desync", "%s: expected the nested move_or_destruct restriction to raise an error", desc);
   nested_restrict = 0;
+  if (expect_fail < 0) expect_fail = failed;
   if (failed && !expect_fail && !scripts_run) fail_hist ("C08:unexpected-error", "%s raised an error although nothing was scripted to fail: %s", desc, hx_last_error);
   if (!failed && expect_fail) fail_hist ("C08:illegal-op-succeeded", "%s returned normally", desc);
   walk (desc);
@@ -466,7 +507,7 @@ static int do_tick (void) {
 
 static void set_valid_object (int v) { push_constant_string ("valid_object"); push_number (v); hx_apply (master_ob, "set_policy", 2); }
 
-enum { T_STOP, T_LOAD_A, T_LOAD_B, T_LOAD_B_VETO, T_CLONE, T_MOVE, T_DEST, T_LIVING, T_TIMERS, T_CMD, T_TICK, T_CLEANUP };
+enum { T_STOP, T_LOAD_A, T_LOAD_B, T_LOAD_B_VETO, T_CLONE, T_MOVE, T_DEST, T_LIVING, T_TIMERS, T_CMD, T_TICK, T_CLEANUP, T_MOVE_S, T_LOAD_VIA, T_PRESENT, T_SHAPE };
 typedef struct { int t, x, y; } top;
 
 static void run_top (top o) {
@@ -506,6 +547,24 @@ static void run_top (top o) {
     snprintf (desc, sizeof desc, "O%d command \"v\"", o.x); vx_obs ("%s", desc);
     vx_count (C_COMMANDS, 1);
     push_number (o.x); push_number (8); failed = top_apply (LOGGER, "top", 2, desc); break;
+  case T_MOVE_S:
+    snprintf (desc, sizeof desc, "O%d move_object(\"%s\")%s", o.x, obj_file[o.y], live (o.y) ? "" : " (destination not loaded)"); vx_obs ("%s", desc);
+    expect_fail = -1;           /* succeeds or fails depending on what the destination's create() does: the model decides */
+    push_number (-1); push_number (10 | o.x << 8 | o.y << 16); failed = top_apply (LOGGER, "top", 2, desc); break;
+  case T_LOAD_VIA: {
+    static const char *via[] = { "", "call_other", "first_inventory", "tell_room" };
+    snprintf (desc, sizeof desc, "load %s through %s(\"%s\", ...)", obj_file[o.x], via[o.y], obj_file[o.x]); vx_obs ("%s", desc);
+    push_number (-1); push_number (11 | o.x << 8 | o.y << 16); failed = top_apply (LOGGER, "top", 2, desc); break;
+  }
+  case T_PRESENT:
+    snprintf (desc, sizeof desc, "present(\"thing\", O%d)", o.x); vx_obs ("%s", desc);
+    push_number (-1); push_number (12 | o.x << 8); failed = top_apply (LOGGER, "top", 2, desc); break;
+  case T_SHAPE: {
+    static const char *sh[] = { "O->poke(kill(O))", "tell_object(O, kill(O))", "present(O, kill(O) -> env)", "take(O, kill(O))" };
+    snprintf (desc, sizeof desc, "%s with O = O%d", sh[o.y], o.x); vx_obs ("%s", desc);
+    expect_fail = -1;           /* the call may end in "bad argument": what matters is that nothing runs in / sees the destructed object */
+    push_number (-1); push_number (13 | o.x << 8 | o.y << 16); failed = top_apply (LOGGER, "top", 2, desc); break;
+  }
   case T_TICK:
     snprintf (desc, sizeof desc, "tick"); vx_obs ("%s", desc);
     ticks_done++; last_hb_id = -1; tick_err = do_tick (); failed = tick_err != 0; break;
@@ -531,6 +590,10 @@ static int enabled_tops (top *v) {
   for (int x = 0; x < NOBJ; x++) if (live (x) && !M[x].living) v[n++] = (top) { T_LIVING, x, 0 };
   for (int x = 0; x < NOBJ; x++) if (live (x) && !M[x].hb) v[n++] = (top) { T_TIMERS, x, 0 };
   for (int x = 0; x < NOBJ; x++) if (live (x) && M[x].living) v[n++] = (top) { T_CMD, x, 0 };
+  for (int x = 0; x < NOBJ; x++) if (live (x)) for (int t = 0; t < 2; t++) if (!live (t)) v[n++] = (top) { T_MOVE_S, x, t };
+  for (int t = 0; t < 2; t++) if (!live (t)) for (int k = 1; k <= 3; k++) v[n++] = (top) { T_LOAD_VIA, t, k };
+  for (int x = 0; x < NOBJ; x++) if (live (x) && has_children (x)) v[n++] = (top) { T_PRESENT, x, 0 };
+  if (shapes_on) for (int x = 0; x < NOBJ; x++) if (live (x)) for (int k = 0; k < 4; k++) v[n++] = (top) { T_SHAPE, x, k };
   if (ticks_done < maxticks) { int any = 0; for (int x = 0; x < NOBJ; x++) any |= M[x].hb | M[x].co; if (any) v[n++] = (top) { T_TICK, 0, 0 }; }
   if (pending_destructed) v[n++] = (top) { T_CLEANUP, 0, 0 };
   return n;
@@ -573,7 +636,7 @@ static void body (void) {
   choices_on = 1;
   for (int step = 0; step < depth; step++) {
     vx_state (cb, (size_t) canon (cb, sizeof cb, step));
-    top v[64];
+    top v[160];
     int n = enabled_tops (v);
     int c = vx_choose_free (1 + n, "op");
     if (!c) break;
@@ -622,6 +685,7 @@ int main (int argc, char **argv) {
   maxticks = (int) vx_opt_long ("ticks", 2);
   selftest = (int) vx_opt_long ("selftest", 0);
   ohash = (int) vx_opt_long ("ohash", 0);
+  shapes_on = (int) vx_opt_long ("shapes", 0);
   if (ohash > 0) snprintf (conf_extra, sizeof conf_extra, "ObjectHashSize %d\n", ohash);
   hx_boot (mud, conf_extra, 0);
   install_fatal ();
